@@ -308,7 +308,7 @@ def slices(tier):
         # has no handler: expr() types it by the condition AND both values; every combination of a real / complex
         # true and false value is generated, under conditions lt(a, b) and lt(b, a) so that either branch is the
         # one selected in the complex environment
-        csl("cond-op", [F, V], [{"lt"}, {"cond"}, {"max", "min"}, MODE], lits=("two",), need=COND_NEED),
+        csl("cond-op", [F, V], [{"lt"}, {"cond"}, {"max", "min"}, MODE], lits=("two",) if q else ("two", "i"), need=COND_NEED if q else COND_NEED + ("rcc!",)),
         # powers with a non-literal exponent (CheckComparisons.power evaluates float(exponent))
         csl("pow-exp", [F, V, H], [{"pow"}, {"max"}, MODE], lits=("two",), powlit=False),
         # vectors: inner/outer/dot/index/abs of a complex and a real vector
@@ -323,6 +323,14 @@ def slices(tier):
             csl("types2", [F, H], [UN | BIN, UN | BIN, {"max"}, MODE], lits=("two", "i")),
             csl("cond2", [F, H], [ORD | {"eq"}, LOGIC | {"lt", "eq"}, {"cond"}, MODE], lits=("zero",)),
             csl("vec2", [U, X], [VEC1, {"index", "inner", "dot", "pow", "abs", "imag"}, {"max", "sign", "lt", "min"}, MODE], lits=("two",)),
+            # a conditional as an operand of an ordering comparison (which needs a second conditional to become an integrand)
+            csl("cond-ord", [F, V], [{"lt"}, {"cond"}, {"gt"}, {"cond"}, MODE], lits=("two",), need=COND_NEED),
+            # conditionals between vectors, compared through a component: indexed() copies the type of the conditional
+            csl("cond-vec", [U, X], [{"index"}, {"lt"}, {"cond"}, {"index"}, {"max"}, MODE], lits=("two",), need=("rrc!", "rcr!")),
+            # a conditional reaches the comparison through type-preserving operators
+            csl("cond-thru", [F, V], [{"lt"}, {"cond"}, {"mul", "neg", "conj"}, {"max"}, MODE], lits=("two",), need=COND_NEED),
+            # values of the conditional that are typed by a handler of their own (sqrt: complex, abs: real)
+            csl("cond-un", [F, V], [{"sqrt", "abs"}, {"lt"}, {"cond"}, {"min"}, MODE], lits=(), need=COND_NEED),
             csl("variable", [F, H], [{"variable", "abs"}, {"variable", "max", "lt", "mul"}, {"max", "cond", "sign"}, MODE], lits=("two",)),
             csl("const-arg", [C, W, R], [UN | BIN, MM, MODE], lits=("mone", "i")),
             # deep random programs over the whole alphabet
